@@ -626,6 +626,34 @@ func (ck *Check) unitOf(t *Term, env map[string]string) string {
 				return "bytes"
 			}
 			return ""
+		case t.Fn == nil && strings.HasPrefix(name, "("):
+			// "the operation" handed in as a function value: every function the value can be is one
+			// expression over its parameters, read with the arguments' units
+			call, ok := t.Val.(*ssa.Call)
+			if !ok {
+				return ""
+			}
+			fvs := ck.P.funcValuesOf(call.Common().Value)
+			unit := ""
+			for i, f := range fvs {
+				if f == nil || f.Blocks == nil || len(f.Blocks) != 1 || len(f.Params) != len(t.Args) {
+					return ""
+				}
+				r, ok := f.Blocks[0].Instrs[len(f.Blocks[0].Instrs)-1].(*ssa.Return)
+				if !ok || len(r.Results) != 1 {
+					return ""
+				}
+				e2 := map[string]string{}
+				for j, prm := range f.Params {
+					e2[paramTerm(prm).Key()] = ck.unitOf(t.Args[j], env)
+				}
+				u := ck.unitOf(ck.P.NewCtx(f).Term(r.Results[0]), e2)
+				if i > 0 && u != unit {
+					return "!"
+				}
+				unit = u
+			}
+			return unit
 		case t.Fn != nil && t.Fn.Name() == "max" && len(t.Args) == 2, name == "max", name == "min":
 			a, b := ck.unitOf(t.Args[0], env), ck.unitOf(t.Args[1], env)
 			if a == b {
@@ -964,7 +992,7 @@ func (ck *Check) podComposition(rule string, sched *ssa.Package) {
 					why = append(why, "no full range over pod.Spec."+list)
 					return
 				}
-				body := And(ctx.BlockPC(p.loop.Header), ctx.edgeCond(p.loop.Header, p.loop.Header.Succs[0]))
+				body := p.loop.bodyPC(ctx)
 				if eq, _, _ := Equivalent(ctx.PC(p.call), body); !eq {
 					okv = false
 					why = append(why, "conditional application inside the loop over "+list)
@@ -1017,20 +1045,29 @@ func (ck *Check) podComposition(rule string, sched *ssa.Package) {
 		fn   *ssa.Function
 		kind string
 	}{{add, "+="}, {setMax, "max"}} {
-		octx := ck.P.NewCtx(op.fn)
 		recv := paramTerm(op.fn.Params[0])
 		okb := true
 		var whyb []string
 		seen := map[string]bool{}
-		for _, b := range op.fn.Blocks {
-			for _, in := range b.Instrs {
+		// the operator's extended body: the method itself, or a helper it shares with its sibling and
+		// hands "the operation" to as a function value (parameters bound)
+		ck.bodyInstrsPC(op.fn, func(octx *Ctx, ofn *ssa.Function, in ssa.Instruction, prefix *Formula) {
+			b := in.Block()
+			{
 				st, ok := in.(*ssa.Store)
 				if !ok {
-					continue
+					return
 				}
 				f := fieldOfAddr(st.Addr)
 				if f == nil || (f.Name() != "MilliCPU" && f.Name() != "Memory") {
-					continue
+					return
+				}
+				if fa, isFA := st.Addr.(*ssa.FieldAddr); !isFA || octx.Term(fa.X).Key() != recv.Key() {
+					return
+				}
+				if eq, _, _ := Equivalent(prefix, FTrue); !eq && ofn != op.fn {
+					okb = false
+					whyb = append(whyb, "the shared helper is called conditionally")
 				}
 				seen[f.Name()] = true
 				v := octx.Term(st.Val)
@@ -1049,7 +1086,7 @@ func (ck *Check) podComposition(rule string, sched *ssa.Package) {
 				}
 				// full range over the list, no early exit — or a direct comma-ok lookup of the
 				// resource's own key in the list (the store happens iff the key is present)
-				l := innermostLoop(op.fn, b)
+				l := innermostLoop(ofn, b)
 				if l == nil {
 					pc := octx.PC(st)
 					direct := false
@@ -1073,7 +1110,7 @@ func (ck *Check) podComposition(rule string, sched *ssa.Package) {
 					whyb = append(whyb, "the resource list is not fully traversed")
 				}
 			}
-		}
+		})
 		if !seen["MilliCPU"] || !seen["Memory"] {
 			okb = false
 			whyb = append(whyb, "one of the two resources is not handled")
@@ -1130,7 +1167,7 @@ func (ck *Check) commutativeFold(rule string, fn *ssa.Function, accField string)
 		ck.fail(rule, funcID(fn)+"/loop", ck.P.position(fn.Pos()), funcID(fn), "a full range loop over the list parameter", "", "elements can be skipped (early exit) or the list is not the parameter")
 		return
 	}
-	body := And(ctx.BlockPC(loop.Header), ctx.edgeCond(loop.Header, loop.Header.Succs[0]))
+	body := loop.bodyPC(ctx)
 	found := map[string]bool{}
 	for b := range loop.Blocks {
 		for _, in := range b.Instrs {
